@@ -273,3 +273,5 @@ def _bounded_deps(tier, repo):
 
 REG.bounded_check("bounded#page_has_exactly_the_js_css_of_the_rendered_components_once_in_order", P, _bounded_deps,
                   note="the harvest loop of _process_dep_declarations and the render pipeline are not under contract: every page with <= 3 component uses over 3 classes (repeats, nesting through a slot) x 4 placeholder layouts is rendered for real and its scripts / styles / Media files compared with the rendered classes in order of first appearance")
+
+import contracts.c04b  # noqa: E402,F401  (_gen_exec_script: the fragment-mode declaration)
